@@ -1005,41 +1005,12 @@ def psr_contract():
     )
 
 
-PMR_N = fun("parse_multi_recipients_n", M.MsgPropS, I)
-PMR_AT = fun("parse_multi_recipients_at", M.MsgPropS, I, ext_sort("EmailAddress"))
-LLH = fun("looks_like_html", S, B)
-H2T = fun("html_to_text", S, S)
-MSGATT_N = fun("msg_attachments_n", S, I)
-MSGATT_AT = fun("msg_attachments_at", S, I, ext_sort("EmailAttachment"))
-
-
-def msg_opaque_contracts():
-    """Helpers of read_msg_format_mail that are NOT verified here: used as deterministic functions of their arguments
-    (dataflow only); listed as assumed."""
-    unk = Maker(lambda ex, st, n: VUnk(n))
-
-    def pmr_result(ex, st, ctx):
-        raw = ctx.args["raw"]
-        if not (isinstance(raw, VExt) and raw.sort == "MsgProp"):
-            raise Unsupported("_parse_multi_recipients on a value that is not a message property")
-        st.assume(PMR_N(raw.t) >= 0)
-        return VSeq(PMR_N(raw.t), lambda k: VExt("EmailAddress", PMR_AT(raw.t, k)), ("obj", "EmailAddress"), tag=("pmr", raw.t))
-
-    def att_result(ex, st, ctx):
-        b = M.bytes_term(ctx.args["file_bytes"])
-        st.assume(MSGATT_N(b) >= 0)
-        return VSeq(MSGATT_N(b), lambda k: VExt("EmailAttachment", MSGATT_AT(b, k)), ("obj", "EmailAttachment"), tag=("msgatt", b))
-
-    return [
-        FnContract(target=f"{MSG}::_parse_multi_recipients", params=[("raw", unk)], assumed=True, result_maker=pmr_result,
-                   note="not verified here: deterministic function of the property value"),
-        FnContract(target=f"{MSG}::_extract_msg_attachments", params=[("file_bytes", unk)], assumed=True, result_maker=att_result,
-                   may_raise_any=True, note="not verified here: deterministic function of the file bytes; may raise (OLE parser)"),
-        FnContract(target=f"{MSG}::_looks_like_html", params=[("text", p_str())], assumed=True,
-                   returns=lambda c: VBool(LLH(c.args["text"].t)), note="not verified here: deterministic predicate"),
-        FnContract(target=f"{MSG}::_html_to_text", params=[("html_text", p_str())], assumed=True,
-                   returns=lambda c: VStr(H2T(c.args["html_text"].t)), note="not verified here: total (catches everything), deterministic"),
-    ]
+def helper_tag(st, v):
+    """("helper", name, argument terms, sorts) of a list produced by a summarised private helper of the msg module"""
+    tag = M.seq_tag(st, v) if v is not None else None
+    if not (isinstance(tag, tuple) and tag and tag[0] == "helper"):
+        raise M.ShapeUnknown("list not produced by a helper of the module applied to message properties")
+    return tag
 
 
 def read_msg_contract():
@@ -1087,24 +1058,28 @@ def read_msg_contract():
             raise M.ShapeUnknown("date is not a str value")
         return z3.And(z3.Not(none), M.DATE_OK(s_), v.t == M.ISO(M.PDATE(s_)))
 
+    RCPT = {"to_emails": "to", "to_cc": "cc", "to_bcc": "bcc"}
+
     def e_rcpt(field, pname):
         def e(c):
-            v = f((field,))(c)
-            tag = M.seq_tag(c.st, v) if v is not None else None
+            tag = helper_tag(c.st, f((field,))(c))
+            names = {helper_tag(c.st, f((fl,))(c))[1] for fl in RCPT}
             want = M.MX_PROP(mx(c), z3.StringVal(pname))
-            if not (isinstance(tag, tuple) and tag[0] == "pmr"):
-                raise M.ShapeUnknown("value built by the code has a shape this clause does not read")
-            return tag[1] == want
+            if len(tag[2]) != 1:
+                raise M.ShapeUnknown("recipient parser takes more than the property")
+            return z3.And(z3.BoolVal(len(names) == 1), tag[2][0] == want)      # one parser for all recipient fields, fed its own property
         return e
 
     def e_from(c):
         v = f(("from_email",))(c)
         if v is None:
-            raise M.ShapeUnknown("value built by the code has a shape this clause does not read")
+            raise M.ShapeUnknown("no sender value")
         nm, ad = addr_fields(c.st, v)
+        fname = helper_tag(c.st, f(("to_emails",))(c))[1]
         sp = M.MX_PROP(mx(c), z3.StringVal("sender"))
-        first = PMR_AT(sp, 0)
-        return z3.If(PMR_N(sp) > 0, z3.And(nm == fld("EmailAddress", "name", S)(first), ad == fld("EmailAddress", "address", S)(first)),
+        n = z3.Function(f"helper:{fname}.len", M.MsgPropS, I)(sp)
+        first = z3.Function(f"helper:{fname}.at", M.MsgPropS, I, ext_sort("EmailAddress"))(sp, 0)
+        return z3.If(n > 0, z3.And(nm == fld("EmailAddress", "name", S)(first), ad == fld("EmailAddress", "address", S)(first)),
                      z3.And(nm == M.EMPTY, ad == M.EMPTY))
 
     def e_body(c):
@@ -1112,15 +1087,16 @@ def read_msg_contract():
         none, s_ = prop(c, "body")
         raw = z3.If(z3.Or(none, z3.Length(s_) == 0), M.EMPTY, s_)
         if not (isinstance(bp, VStr) and isinstance(bh, VStr)):
-            raise M.ShapeUnknown("value built by the code has a shape this clause does not read")
-        return z3.And(bp.t == STRIP(z3.If(LLH(raw), H2T(raw), raw)), bh.t == z3.If(LLH(raw), raw, M.EMPTY))
+            raise M.ShapeUnknown("bodies are not str values")
+        # either the body is plain text (no html body, plain body = the text) or it is html (html body = the raw body; the plain
+        # body is its text rendering, produced by a helper that is not specified here)
+        return z3.Or(z3.And(bh.t == M.EMPTY, bp.t == STRIP(raw)), bh.t == raw)
 
     def e_atts(c):
-        v = f(("attachments",))(c)
-        tag = M.seq_tag(c.st, v) if v is not None else None
-        if not (isinstance(tag, tuple) and tag[0] == "msgatt"):
-            raise M.ShapeUnknown("value built by the code has a shape this clause does not read")
-        return tag[1] == M.CONTENT(c.args["file_like"].t)
+        tag = helper_tag(c.st, f(("attachments",))(c))
+        if len(tag[2]) != 1:
+            raise M.ShapeUnknown("attachment extractor takes more than the file bytes")
+        return tag[2][0] == M.CONTENT(c.args["file_like"].t)
 
     return FnContract(
         target=f"{MSG}::read_msg_format_mail",
@@ -1142,7 +1118,6 @@ def contracts(reg):
     M.install(reg)
     out = []
     out.append(psr_contract())
-    out.extend(msg_opaque_contracts())
     out.append(read_msg_contract())
     out.extend(router_contracts(reg))
     out.append(eml_contract())
